@@ -103,9 +103,11 @@ func TestVerifC08KnownIdleENIKept(t *testing.T) {
 
 func TestVerifC08KnownGreedyDemand(t *testing.T) {
 	c02Witness(t, "C08", "C08-greedy-demand-oscillation",
-		"assignEniWithOptions subtracts idle addresses interface by interface while splitting the demand: with min = max = 2 and one idle address on each of two interfaces it assigns one more address every pass and adjustPool releases one again - no fixed point",
+		"assignEniWithOptions subtracts idle addresses interface by interface while splitting the demand: min = max = 2, eni A (3 addresses, one idle) and eni B (idle primary, its other address bound) hold the 2 idle addresses wanted, yet every pass assigns one more address to A and adjustPool releases one from A again (B's idle primary cannot be released) - no fixed point",
 		`{"mode":"C08","node":{"v4":true,"adapters":4,"v4_per":4,"v6_per":4,"min":2,"max":2,"vsw":[{"free":500}],"policy":"ordered","synced":true},
-		  "pre":[{"type":"secondary","n4":1,"n6":0,"rec":"exact"},{"type":"secondary","n4":1,"n6":0,"rec":"exact"}],"slots":[{},{},{}],"ops":[{"kind":"reconcile","b":1}]}`)
+		  "pre":[{"type":"secondary","n4":3,"n6":0,"rec":"exact","binds":[{"i4":0,"i6":0,"slot":0,"rec":"full","alive":true,"reports":"both"},{"i4":1,"i6":0,"slot":2,"rec":"full","alive":true,"reports":"both"}]},
+		         {"type":"secondary","n4":2,"n6":0,"rec":"exact","binds":[{"i4":1,"i6":0,"slot":1,"rec":"full","alive":true,"reports":"both"}]}],
+		  "slots":[{},{},{}],"ops":[{"kind":"reconcile","b":1}]}`)
 }
 
 func TestVerifC08KnownRDMAIdle(t *testing.T) {
